@@ -168,9 +168,171 @@ def grd8(P, R, L):
     R.check("GRD-8", KMM + "|uses-stored-exponent", shl and uses, K.where(b), "the reader derives the range size from the exponent stored in the block", "")
 
 
+GEN_FILTER = "tables::filter_block_builder::FilterBlockBuilder::generate_filter"
+CREATE = "filter_policy::FilterPolicy::create_filter"
+BLOOM_CREATE = "<filter_policy::BloomFilterPolicy as filter_policy::FilterPolicy>::create_filter"
+BLOOM_MATCH = "<filter_policy::BloomFilterPolicy as filter_policy::FilterPolicy>::key_may_match"
+BLOOM_HASH = "filter_policy::BloomFilterPolicy::hash"
+
+
+def pair5b(P, R, L):
+    R.clause("PAIR-5b", "FilterBlockBuilder: add_key records every key unconditionally; generate_filter hands all pending keys to the policy, "
+             "keeps the produced filter, and clears the pending keys only afterwards; finalize flushes pending keys before serialising")
+    a = P.body(ADD_KEY)
+    if a is None:
+        R.missing_anchor("PAIR-5b", ADD_KEY)
+    else:
+        R.analysed(a)
+        pushes = [c for c in a.calls() if not a.is_cleanup(c.bb) and c.name in ("std::vec::Vec::push", "std::vec::Vec::insert", "std::collections::VecDeque::push_back")
+                  and any("keys" in o.path for o in origins(a, c.args[0])) and any(o.kind == "param" and o.name == 2 for o in origins(a, c.args[-1]))]
+        ok = bool(pushes) and all(a.must_pass(r, through_nodes=[c.bb for c in pushes]) for r in a.return_blocks())
+        R.check("PAIR-5b", ADD_KEY + "|records-every-key", ok, K.where(a), "every path through add_key appends the given key to the pending keys (no key is filtered out: the empty key is legal)",
+                "push sites %d" % len(pushes))
+    g = P.body(GEN_FILTER)
+    if g is None:
+        R.missing_anchor("PAIR-5b", GEN_FILTER)
+    else:
+        R.analysed(g)
+        cr = [c for c in g.calls() if not g.is_cleanup(c.bb) and (c.declared_name == CREATE or c.name == CREATE)]
+        clr = [c for c in g.calls() if not g.is_cleanup(c.bb) and c.name in ("std::vec::Vec::clear", "std::vec::Vec::truncate", "std::vec::Vec::drain", "std::mem::take")
+               and any("keys" in o.path for o in origins(g, c.args[0]))]
+        psh = [c for c in g.calls() if not g.is_cleanup(c.bb) and c.name == "std::vec::Vec::push" and any("filters" in o.path for o in origins(g, c.args[0]))]
+        det = []
+        ok = bool(cr) and bool(clr) and bool(psh)
+        for c in cr:
+            if not any("keys" in o.path for o in origins(g, c.args[1])):
+                ok = False
+                det.append("create_filter is not given the pending keys")
+            if not any(x.kind == "call" and x.site is not None and x.site.bb == c.bb for p_ in psh for x in origins(g, p_.args[1])):
+                ok = False
+                det.append("the created filter is not the one pushed")
+        for c in clr:
+            if not g.must_pass(c.bb, through_nodes=[x.bb for x in cr]):
+                ok = False
+                det.append("pending keys can be cleared before a filter was created from them")
+        if psh and not all(g.must_pass(r, through_nodes=[x.bb for x in psh]) for r in g.return_blocks()):
+            ok = False
+            det.append("a path through generate_filter adds no filter (the filter index would fall behind the block offsets)")
+        R.check("PAIR-5b", GEN_FILTER + "|keys-to-filter", ok, K.where(g), "pending keys -> create_filter -> filters.push -> keys.clear", "; ".join(det))
+    fz = P.body(FB_FINALIZE)
+    if fz is not None:
+        R.analysed(fz)
+        gs = [c for c in fz.calls() if not fz.is_cleanup(c.bb) and c.name == GEN_FILTER]
+        # the only way around generate_filter is the `keys.is_empty()` edge
+        emp = []
+        for c in fz.calls():
+            if not fz.is_cleanup(c.bb) and (c.name or "").endswith("::is_empty") and any("keys" in o.path for o in origins(fz, c.args[0])):
+                for t in bool_tests(fz, c.dest["l"]):
+                    emp += [(t.bb, x) for x in t.ok]
+        reads = [c for c in fz.calls() if not fz.is_cleanup(c.bb) and any("filters" in o.path for a_ in c.args[:1] for o in origins(fz, a_))]
+        ok = bool(gs) and bool(reads) and all(fz.must_pass(c.bb, through_nodes=[x.bb for x in gs], through_edges=emp) for c in reads)
+        R.check("PAIR-5b", FB_FINALIZE + "|pending-keys-flushed-first", ok, K.where(fz),
+                "the filters are serialised only after the pending keys went into a last filter (or there are none)", "generate sites %d" % len(gs))
+
+
+def agr1(P, R, L):
+    R.clause("AGR-1", "BloomFilterPolicy: create_filter and key_may_match derive the probe positions from the same hash with the same "
+             "operations and constants (rotation, modulo the bit length), and the reader probes as often as the filter's own header says")
+    w, r = P.body(BLOOM_CREATE), P.body(BLOOM_MATCH)
+    if w is None or r is None:
+        return R.missing_anchor("AGR-1", BLOOM_CREATE if w is None else BLOOM_MATCH)
+    R.analysed(w, r)
+
+    def sig(b):
+        hs = [c for c in b.calls() if c.name == BLOOM_HASH and not b.is_cleanup(c.bb)]
+        hl = {c.dest["l"] for c in hs}
+        out = set()
+        for bb in range(b.n):
+            if b.is_cleanup(bb):
+                continue
+            for st in b.blocks[bb]["stmts"]:
+                if st["k"] == "assign" and st["rv"]["k"] == "binop":
+                    ops = st["rv"]["ops"]
+                    dep = [op["k"] in ("copy", "move") and bool(roots(b, op) & hl) for op in ops]
+                    if any(dep):
+                        out.add((st["rv"]["op"].replace("WithOverflow", "").replace("Unchecked", ""),
+                                 tuple("h" if d else (op.get("val") if op["k"] == "const" else "v") for op, d in zip(ops, dep))))
+            t = b.term(bb)
+            if t["k"] == "call" and t["args"]:
+                from ..cfg import strip_generics
+                nm = strip_generics(t.get("resolved") or t.get("callee") or "")
+                if "wrapping_" in nm or "rotate_" in nm:
+                    dep = [op["k"] in ("copy", "move") and bool(roots(b, op) & hl) for op in t["args"]]
+                    if any(dep):
+                        out.add((nm.rsplit("::", 1)[1], tuple("h" if d else (op.get("val") if op["k"] == "const" else "v") for op, d in zip(t["args"], dep))))
+        # normalise rotations: (h >> a) | (h << 32-a)  ==  rotate_right(a)  ==  rotate_left(32-a)
+        shr = [x for x in out if x[0] == "Shr" and x[1][0] == "h" and (x[1][1] or "").isdigit()]
+        shl = [x for x in out if x[0] == "Shl" and x[1][0] == "h" and (x[1][1] or "").isdigit()]
+        for a_ in shr:
+            for b_ in shl:
+                if int(a_[1][1]) + int(b_[1][1]) == 32:
+                    out -= {a_, b_}
+                    out.add(("rot", int(a_[1][1])))
+        for x in list(out):
+            if x[0] == "rotate_right" and (x[1][1] or "").isdigit():
+                out.discard(x)
+                out.add(("rot", int(x[1][1])))
+            if x[0] == "rotate_left" and (x[1][1] or "").isdigit():
+                out.discard(x)
+                out.add(("rot", 32 - int(x[1][1])))
+        return hs, out
+    hw, sw = sig(w)
+    hr, sr = sig(r)
+    R.check("AGR-1", "bloom|probe-sequence-agreement", bool(hw) and bool(hr) and bool(sw) and sw == sr, K.where(r),
+            "writer and reader apply the same operations with the same constants to the key's hash",
+            "writer-only %s reader-only %s common %d" % (sorted(sw - sr), sorted(sr - sw), len(sw & sr)))
+    # hash input: the key itself on both sides
+    whole = lambda o: o.kind == "param" or (o.kind == "call" and (o.name or "").endswith("::next"))     # `for key in keys`
+    kin = all(origins(b, c.args[0]) and all(whole(o) for o in origins(b, c.args[0])) for b, hs in ((w, hw), (r, hr)) for c in hs)
+    R.check("AGR-1", "bloom|hash-of-the-whole-key", kin, K.where(r), "both sides hash the key they were given (no slicing / transformation on one side only)", "")
+    # the modulus is 8 * byte length of the bit vector on both sides
+    # reader: probe count comes from the filter (param 3), not from the configured policy
+    rng = []
+    for bb in range(r.n):
+        if r.is_cleanup(bb):
+            continue
+        for st in r.blocks[bb]["stmts"]:
+            if st["k"] == "assign" and st["rv"]["k"] == "aggregate" and "Range" in (st["rv"].get("adt") or ""):
+                rng.append(origins(r, st["rv"]["ops"][1]))
+    from_filter = bool(rng) and all(os_ and all((o.kind == "call" and "split_first" in (o.name or "")) or (o.kind == "param" and o.name == 3) for o in os_) for os_ in rng)
+    R.check("AGR-1", BLOOM_MATCH + "|probe-count-from-the-filter", from_filter, K.where(r),
+            "the number of probes is the one stored in the filter's first byte (a filter written under a different bits_per_key is still read correctly)",
+            "loop bounds: %s" % [[(o.kind, o.name, o.path) for o in os_] for os_ in rng])
+    # writer: stores its own probe count as the first byte
+    stored = False
+    for bb in range(w.n):
+        for st in w.blocks[bb]["stmts"]:
+            if st["k"] == "assign" and st["rv"]["k"] == "cast" and any("num_hash_functions" in o.path for o in origins(w, st["rv"]["ops"][0])):
+                stored = True
+    R.check("AGR-1", BLOOM_CREATE + "|stores-probe-count", stored, K.where(w), "the filter header byte is the writer's num_hash_functions", "")
+
+
+def grd15(P, R, L):
+    R.clause("GRD-15", "Table::read_filter_meta_block hands a filter block to the configured policy only when the metaindex entry the seek "
+             "landed on is the entry of that policy (`filter.<name>` equal to the requested key); any other entry means 'no filter'")
+    fn = "tables::table::Table::read_filter_meta_block"
+    b = P.body(fn)
+    if b is None:
+        return R.missing_anchor("GRD-15", fn)
+    R.analysed(b)
+    mk = [c for c in b.calls() if not b.is_cleanup(c.bb) and c.name == "tables::filter_block::FilterBlockReader::new"]
+    is_cur = lambda os_: any(o.kind == "call" and (o.name or "").endswith("::current") for o in os_)
+    is_req = lambda os_: any(o.kind == "call" and o.name in ("tables::block::MetaIndexKey::new", "filter_policy::get_filter_block_name") for o in os_)
+    eq = []
+    for c in comparisons(b):
+        eq += c.edges_where("eq", is_cur, is_req, exact=True)
+    ok = bool(mk) and bool(eq) and all(b.must_pass(c.bb, through_edges=eq) for c in mk)
+    R.check("GRD-15", fn + "|filter-block-belongs-to-the-policy", ok, K.where(b),
+            "FilterBlockReader::new is reached only over the edge `found metaindex key == requested filter.<policy name>`",
+            "reader construction sites %d, key-equality edges %d" % (len(mk), len(eq)))
+
+
 def run(P, R, L):
+    grd15(P, R, L)
     pair5(P, R, L)
+    pair5b(P, R, L)
+    agr1(P, R, L)
     grd8(P, R, L)
     R.clause("GRD-7", "the probe in Table::get uses the block handle's offset and the lookup key's user key; a miss is Err(KeyNotFound)")
     K.grd7(P, R, L)
-    R.not_decided += ["the Bloom arithmetic (create_filter vs key_may_match probe sequences)", "filter-index arithmetic for a concrete offset"]
+    R.not_decided += ["the Bloom arithmetic beyond writer/reader agreement (that the shared probe sequence stays inside the bit vector)", "filter-index arithmetic for a concrete offset"]
